@@ -6,7 +6,8 @@
 (* REAL CommandHub with REAL worker threads (vh::sozukit), driven through  *)
 (* the hub's unix command socket by one sequential client:                 *)
 (*   reset  a fresh system; `init` = ids of the workers launched at start  *)
-(*   op     one client operation with its final verdict:                   *)
+(*   op     one client operation with its final verdict (a save also with *)
+(*          the parsed content of the file that was written):              *)
 (*            {kind: "cmd", c: <command record of ConfigState.tla>}        *)
 (*            {kind: "save"}  SaveState to the run's state file            *)
 (*            {kind: "load"}  LoadState of that file                       *)
@@ -43,30 +44,6 @@ Keys(f) == DOMAIN f
 \* a JSON object of worker id -> x arrives as a record; an empty one as an empty sequence
 IsEmptyObj(f) == DOMAIN f = {}
 
-StateFor(initw) ==
-  [InitState EXCEPT !.wst = [w \in Workers |-> IF w \in initw THEN "alive" ELSE "none"],
-                    !.hview = [w \in Workers |-> IF w \in initw THEN "running" ELSE "none"]]
-
-T_Reset(e) == e.ev = "reset" /\ Set(StateFor(ToSet(e.init)))
-
-T_Op(e) ==
-  /\ e.ev = "op"
-  /\ Quiescent(S)
-  /\ LET T1 == Settle(ClientSend(S, e.op)) IN
-       /\ LastVerdict(S, T1, e.op) = e.verdict
-       /\ Set(T1)
-
-T_Die(e) ==
-  /\ e.ev = "die"
-  /\ WorkerDieEn(S, e.w)
-  /\ LET T1 == Settle(WorkerDie(S, e.w)) IN Set(T1)
-
-T_Start(e) ==
-  /\ e.ev = "start"
-  /\ HubStartWorkerEn(S, e.w)
-  /\ e.boot = Len(CS!Generate(mcfg))
-  /\ LET T1 == Settle(HubStartWorker(S, e.w)) IN Set(T1)
-
 SameView(v, j) ==       \* a WView against its JSON form (sets arrive as sequences)
   /\ v.clu = ToSet(j.clu) /\ v.bke = ToSet(j.bke) /\ v.hfr = ToSet(j.hfr) /\ v.tfr = ToSet(j.tfr)
   /\ Len(j.clu) = Cardinality(v.clu) /\ Len(j.bke) = Cardinality(v.bke)
@@ -85,6 +62,32 @@ FullOK(s, j) ==
 
 \* the part of a configuration the cluster hashes cover (udp frontends are not hashed)
 HView(s) == LET v == WView(s) IN [v EXCEPT !.tfr = {f \in @ : f.p = "tcp"}]
+
+StateFor(initw) ==
+  [InitState EXCEPT !.wst = [w \in Workers |-> IF w \in initw THEN "alive" ELSE "none"],
+                    !.hview = [w \in Workers |-> IF w \in initw THEN "running" ELSE "none"]]
+
+T_Reset(e) == e.ev = "reset" /\ Set(StateFor(ToSet(e.init)))
+
+T_Op(e) ==
+  /\ e.ev = "op"
+  /\ Quiescent(S)
+  /\ LET T1 == Settle(ClientSend(S, e.op)) IN
+       /\ LastVerdict(S, T1, e.op) = e.verdict
+       \* a SaveState: the file that was written, parsed back, is the state file of the spec
+       /\ e.hasfile => (T1.saved.some /\ FullOK(T1.saved.cfg, e.file))
+       /\ Set(T1)
+
+T_Die(e) ==
+  /\ e.ev = "die"
+  /\ WorkerDieEn(S, e.w)
+  /\ LET T1 == Settle(WorkerDie(S, e.w)) IN Set(T1)
+
+T_Start(e) ==
+  /\ e.ev = "start"
+  /\ HubStartWorkerEn(S, e.w)
+  /\ e.boot = Len(CS!Generate(mcfg))
+  /\ LET T1 == Settle(HubStartWorker(S, e.w)) IN Set(T1)
 
 T_View(e) ==
   /\ e.ev = "view"
